@@ -3,6 +3,14 @@ package props
 import (
 	"bytes"
 	"fmt"
+	"free5gclib/UeauCommon"
+	"free5gclib/milenage"
+	"free5gclib/nas/nasConvert"
+	"free5gclib/nas/nasType"
+	"free5gclib/ngap/ngapConvert"
+	"free5gclib/openapi/models"
+	"net"
+	"stgutg"
 
 	"free5gclib/nas"
 	"free5gclib/nas/nasTestpacket"
@@ -113,6 +121,80 @@ func c20ops() []c20op {
 			rand := c20key(ue, 7)
 			res := u.DeriveRESstarAndSetKey(subs, autn, rand[:], "5G:mnc001.mcc001.3gppnetwork.org", "01", "001")
 			return fmt.Sprintf("%x %x %x %x", res, u.Kamf, u.KnasEnc, u.KnasInt)
+		}},
+		{"NEA1(300 octets)", func(ue int) string {
+			p := msg(ue, 300+ue)
+			if err := security.NASEncrypt(security.AlgCiphering128NEA1, c20key(ue, 12), uint32(ue+9), 1, 0, p); err != nil {
+				return err.Error()
+			}
+			return fmt.Sprintf("%x", p)
+		}},
+		{"NIA1(300 octets)", func(ue int) string {
+			m, err := security.NASMacCalculate(security.AlgIntegrity128NIA1, c20key(ue, 13), uint32(ue+9), 1, 1, msg(ue, 300+ue))
+			return fmt.Sprintf("%x %v", m, err)
+		}},
+		{"NEA2(300 octets)", func(ue int) string {
+			p := msg(ue, 300+ue)
+			err := security.NASEncrypt(security.AlgCiphering128NEA2, c20key(ue, 14), uint32(ue+9), 1, 0, p)
+			return fmt.Sprintf("%x %v", p, err)
+		}},
+		{"DeriveRESstarAndSetKey(OP only)", func(ue int) string {
+			// no OPc provisioned: the OP-only branch, a different K and OP per UE
+			u := tglib.NewRanUeContext(fmt.Sprintf("imsi-00101000000001%d", ue), int64(ue), 2, 2)
+			k, op := c20key(ue, 15), c20key(ue, 16)
+			subs := tglib.GetAuthSubscription(fmt.Sprintf("%x", k), "", fmt.Sprintf("%x", op))
+			var autn [16]byte
+			autn[4] = byte(ue + 1)
+			rand := c20key(ue, 17)
+			res := u.DeriveRESstarAndSetKey(subs, autn, rand[:], "5G:mnc001.mcc001.3gppnetwork.org", "01", "001")
+			return fmt.Sprintf("%x %x %x %x", res, u.Kamf, u.KnasEnc, u.KnasInt)
+		}},
+		{"Milenage+KDF", func(ue int) string {
+			k, op, rnd := c20key(ue, 18), c20key(ue, 19), c20key(ue, 20)
+			opc, err := milenage.GenerateOPC(k[:], op[:])
+			if err != nil {
+				return err.Error()
+			}
+			macA, macS := make([]byte, 8), make([]byte, 8)
+			res, ck, ik, ak, aks := make([]byte, 8), make([]byte, 16), make([]byte, 16), make([]byte, 6), make([]byte, 6)
+			sqn, amf := []byte{0, 0, 0, 0, 0, byte(ue + 1)}, []byte{0x80, byte(ue)}
+			e1 := milenage.F1(opc, k[:], rnd[:], sqn, amf, macA, macS)
+			e2 := milenage.F2345(opc, k[:], rnd[:], res, ck, ik, ak, aks)
+			kdf := UeauCommon.GetKDFValue(append(ck, ik...), "6A", []byte("5G:mnc001.mcc001.3gppnetwork.org"), UeauCommon.KDFLen([]byte("5G:mnc001.mcc001.3gppnetwork.org")), ak, UeauCommon.KDFLen(ak))
+			return fmt.Sprintf("%x %x %x %x %x %x %x %x %x %v %v", opc, macA, macS, res, ck, ik, ak, aks, kdf, e1, e2)
+		}},
+		{"SUCI+CreateUE+capability", func(ue int) string {
+			imsi := fmt.Sprintf("00101%010d", 1000*ue+7)
+			suci := stgutg.EncodeSuci([]byte(imsi), 2)
+			first := append([]byte{}, suci.Buffer...)
+			u := stgutg.CreateUE(imsi, ue, fmt.Sprintf("%x", c20key(ue, 21)), fmt.Sprintf("%x", c20key(ue, 22)), "")
+			capab := tglib.NewRanUeContext(u.Supi, int64(ue), uint8(ue%3), uint8(1+ue%2)).GetUESecurityCapability()
+			return fmt.Sprintf("%x %x %s %d %x %v", first, suci.Buffer, u.Supi, u.RanUeNgapId, capab.Buffer, u.AuthenticationSubs.PermanentKey.PermanentKeyValue)
+		}},
+		{"identifier conversions", func(ue int) string {
+			plmn := nasConvert.PlmnIDToNas(models.PlmnId{Mcc: fmt.Sprintf("%03d", 200+ue), Mnc: fmt.Sprintf("%02d", 10+ue)})
+			sn := nasConvert.SnssaiToNas(models.Snssai{Sst: int32(1 + ue), Sd: fmt.Sprintf("0%d0203", ue)})
+			pco := nasConvert.NewProtocolConfigurationOptions()
+			pco.AddDNSServerIPv4Address(net.IPv4(8, 8, byte(ue), 4))
+			pco.AddIPv4LinkMTU(uint16(1400 + ue))
+			pb := pco.Marshal()
+			ip := ngapConvert.IPAddressToNgap(fmt.Sprintf("10.0.%d.1", ue), "")
+			// the earlier results are looked at after the later conversions
+			return fmt.Sprintf("%x %x %x %x", plmn, sn, pb, ip.Value.Bytes)
+		}},
+		{"NAS constructors", func(ue int) string {
+			suci := stgutg.EncodeSuci([]byte(fmt.Sprintf("00101%010d", ue+1)), 2)
+			reg := nasTestpacket.GetRegistrationRequest(1, *suci, nil, &nasType.UESecurityCapability{Iei: 0x2e, Len: 2, Buffer: []byte{0x80 >> uint(ue%3), 0x20}}, nil, nil, nil)
+			ul := nasTestpacket.GetUlNasTransport_PduSessionEstablishmentRequest(uint8(1+ue), 1, "internet", &models.Snssai{Sst: int32(1 + ue), Sd: "010203"})
+			smc := nasTestpacket.GetSecurityModeComplete(reg)
+			// reg and ul are looked at after the later constructor calls
+			return fmt.Sprintf("%x %x %x", reg, ul, smc)
+		}},
+		{"NGAP builders", func(ue int) string {
+			a, e1 := tglib.GetInitialContextSetupResponse(int64(100+ue), int64(ue+1))
+			b, e2 := tglib.GetUEContextReleaseComplete(int64(100+ue), int64(ue+1), []int64{int64(1 + ue)})
+			c, e3 := tglib.GetPDUSessionResourceReleaseResponse(int64(100+ue), int64(ue+1), int64(1+ue))
+			return fmt.Sprintf("%x %x %x %v %v %v", a, b, c, e1, e2, e3)
 		}},
 	}
 }
